@@ -259,13 +259,15 @@ fn js_value_to_json_with_visited(
                             drop(obj_ref); // Release borrow before recursive calls
 
                             for (key, val) in props {
-                                let json_val = js_value_to_json_with_visited(&val, visited)?;
-                                // Skip undefined values in objects
-                                if json_val != serde_json::Value::Null
-                                    || !matches!(val, JsValue::Undefined)
+                                // Members whose value has no JSON form are omitted
+                                // (undefined, functions, symbols)
+                                if matches!(val, JsValue::Undefined | JsValue::Symbol(_))
+                                    || val.is_callable()
                                 {
-                                    map.insert(key, json_val);
+                                    continue;
                                 }
+                                let json_val = js_value_to_json_with_visited(&val, visited)?;
+                                map.insert(key, json_val);
                             }
                             serde_json::Value::Object(map)
                         }
